@@ -23,7 +23,8 @@ ASSUMPTIONS = ['level names are matched case-insensitively and numeric levels ar
                'log file of the handler plus a suffix (.gz, ~, .1) are not log files: they neither count for the retention '
                'nor may they be removed']
 REQUIRED = ['routing_sequences', 'emits', 'deliveries_expected', 'silences_expected', 'resets', 'invalid_level_requests',
-            'rotations', 'rotations_with_surplus', 'concurrent_disconnects_injected', 'concurrent_logging_requests_injected']
+            'rotations', 'rotations_with_surplus', 'concurrent_disconnects_injected', 'concurrent_logging_requests_injected',
+            'subscription_changes_injected_into_emits']
 
 N_SEQ = {'quick': 200, 'thorough': 10000}
 N_DIR = {'quick': 200, 'thorough': 10000}
@@ -65,7 +66,7 @@ class Routing:
         self.k = 0
         from vlib import lineinject
         from frappy.logging import RemoteLogHandler
-        self.inj = lineinject.LineInjector(RemoteLogHandler.set_conn_level, name='c20-inject')
+        self.inj = lineinject.LineInjector(RemoteLogHandler.set_conn_level, RemoteLogHandler.handle, name='c20-inject', instructions=True)
 
     def make_node(self, nmod):
         self.k += 1
@@ -111,7 +112,7 @@ class Routing:
                 if self.inj is not None and nconn > 1 and want is not None and rng.random() < 0.3:
                     cj = rng.choice([j for j in range(nconn) if j != ci])
                     gone = (cj, conns[cj])
-                    k = rng.randint(1, 8)
+                    k = rng.randint(1, 14)
                     ops[-1].append(f'while connection {cj} disconnects at line {k}')
                     self.inj.arm(k, lambda cc=conns[cj]: disp.remove_connection(cc))
                 try:
@@ -157,6 +158,58 @@ class Routing:
                 ops.append(['emit', m, lname])
                 for c in conns:
                     del c.out[:]
+                if self.inj is not None and rng.random() < 0.2:
+                    # while the module's thread handles this record, a connection changes its subscription / goes away
+                    # exactly before the k-th line of RemoteLogHandler.handle: the delivery of THIS record may go either
+                    # way, every later record follows the new table
+                    ci = rng.randrange(nconn)
+                    kind = rng.choice(['logging', 'logging', 'idn', 'disconnect'])
+                    m2, l2 = rng.choice(mods + ['.']), rng.choice(['debug', 'info', 'warning', 'error', 'off', 'off'])
+                    k = rng.randint(1, 14)
+                    ops[-1].append(f'while connection {ci}: {kind} {m2} {l2} at line {k}')
+                    cc = conns[ci]
+
+                    def change(cc=cc, kind=kind, m2=m2, l2=l2):
+                        if kind == 'logging':
+                            disp.handle_request(cc, ('logging', m2, l2))
+                        elif kind == 'idn':
+                            disp.handle_request(cc, ('*IDN?', None, None))
+                        else:
+                            disp.remove_connection(cc)
+                    self.inj.arm(k, change)
+                    raised = None
+                    try:
+                        node.secnode.modules[m].log.log(LEVELNO[lname], '%s', text)
+                    except Exception as e:
+                        raised = e
+                    finally:
+                        if not self.inj.disarm():
+                            change()
+                        else:
+                            r.count('subscription_changes_injected_into_emits')
+                    if raised is not None:
+                        r.violation(f'C20/routing/emit-raises/{type(raised).__name__}',
+                                    f'logging a record raised {type(raised).__name__}: {raised} in the emitting thread while connection {ci} '
+                                    f'changed its subscription ({kind})', case)
+                        return
+                    if kind == 'logging':
+                        lv = model_level(l2)
+                        for mm in (mods if m2 == '.' else [m2]):
+                            if lv == OFF:
+                                table[cc.n].pop(mm, None)
+                            else:
+                                table[cc.n][mm] = lv
+                    elif kind == 'idn':
+                        table[cc.n] = {}
+                        had_reset = True
+                    else:
+                        del table[cc.n]
+                        cnew = self.nodes.Conn(f'c{ci}d')
+                        disp.add_connection(cnew)
+                        conns[ci] = cnew
+                        table[cnew.n] = {}
+                        had_reset = True
+                    continue
                 node.secnode.modules[m].log.log(LEVELNO[lname], '%s', text)
                 r.count('emits')
                 for ci, c in enumerate(conns):
@@ -192,7 +245,7 @@ class Routing:
                     # by this disconnect
                     cj = rng.choice([j for j in range(nconn) if j != ci])
                     m2, l2 = rng.choice(mods), rng.choice(['debug', 'info', 'warning', 'error', 'off'])
-                    k = rng.randint(1, 8)
+                    k = rng.randint(1, 14)
                     other = (cj, m2, l2)
                     ops[-1].append(f'while connection {cj} requests logging {m2} {l2} at line {k}')
                     self.inj.arm(k, lambda cc=conns[cj], m2=m2, l2=l2: disp.handle_request(cc, ('logging', m2, l2)))
